@@ -223,6 +223,18 @@ def verdictC12 (emits : List Emit) (readings : List Int) : Option String :=
     | .closed t => !(readings.contains t)
   if bad then some "a timestamp or duration is not derived from TimeKeeper readings taken during the call" else none
 
+/-- the stricter reading of "difference of two such readings": a LATER reading minus an EARLIER one (positions in the
+    order the readings were taken) — a clamped or otherwise adjusted duration is not one -/
+def isLaterMinusEarlier : List Int → Int → Bool
+  | [], _ => false
+  | a :: rest, d => rest.any (fun b => b - a == d) || isLaterMinusEarlier rest d
+def verdictC12o (emits : List Emit) (readings : List Int) : Option String :=
+  let bad := emits.any fun
+    | .run k _ d => (k != .reject && k != .shortCircuit) && !isLaterMinusEarlier readings d
+    | .fb k _ d => k != .reject && !isLaterMinusEarlier readings d
+    | _ => false
+  if bad then some "a reported duration is not a later TimeKeeper reading minus an earlier one of the same call" else none
+
 /-! #### C07 — deadline and context propagation -/
 def verdictC07 (cfg : LiveCfg) (op : ExecOp) (o : ExecObs) : Option String :=
   if cfg.disabled then none else
